@@ -171,6 +171,32 @@ func (t *Teamserver) ListenerRemove(Name string) ([]*Listener, []packager.Packag
 
 	var listener = t.listenerTake(Name)
 	if listener == nil {
+		// not running - but a listener whose start failed is still announced (as offline) to
+		// every operator who connects: removing it takes that announcement away as well
+		var announced = false
+
+		t.EventsMtx.Lock()
+		for EventID := len(t.EventsList) - 1; EventID >= 0; EventID-- {
+			if t.EventsList[EventID].Head.Event == packager.Type.Listener.Type {
+				if t.EventsList[EventID].Body.SubEvent == packager.Type.Listener.Add {
+					if name, ok := t.EventsList[EventID].Body.Info["Name"]; ok {
+						if name == Name {
+							t.EventsList = append(t.EventsList[:EventID], t.EventsList[EventID+1:]...)
+							announced = true
+						}
+					}
+				}
+			}
+		}
+		t.EventsMtx.Unlock()
+
+		if announced {
+			var pk = events.Listener.ListenerRemove(Name)
+
+			t.EventAppend(pk)
+			t.EventBroadcast("", pk)
+		}
+
 		t.ListenersMtx.Unlock()
 		logger.Error("Listener not found: ", Name)
 		return t.Listeners, t.EventsList
